@@ -379,4 +379,7 @@ let () =
       | [ip; port; id] -> run_event (EFailedPing (addr_of ip port, n_of_hex id)) obs
       | _ -> "?");
   reg "setbl" (fun args obs -> match args with [r] -> run_event (ESetBlocklist (parse_ranges r)) obs | _ -> "?");
-  reg "close" (fun _ obs -> run_event EClose obs)
+  reg "close" (fun _ obs -> run_event EClose obs);
+  (* the application's blocked OnAnnouncePeer calls return: the node itself does not move (the model's
+     announce step has already delivered the callback and the store update) *)
+  reg "hookrel" (fun _ obs -> run_event (EAdvance Z0) obs)
